@@ -7,7 +7,9 @@ tie: Gen_Factory.v regenerated from the source (signatures, _provided_args keys,
 platform maps, PRIVS / FAILED_WHEN_CONTAINS values) + correspondence of model/Factory.v against the
 real Scrapli / AsyncScrapli (the (class, kwargs) the factory calls, and the built object's fields)
 and of model/Heap.v against real connections under the same op histories (vm_compute), + two
-property oracles on the implementation that do not use the model."""
+property oracles on the implementation that do not use the model, + the behaviour oracle of
+harness/c18_iso.py (construct / mutate / USE interleavings; every connection's answers against the same
+connection alone, each run in a clean process; shared containers of classes / modules snapshotted)."""
 import asyncio  # noqa: F401  (async functions below are only objects, never awaited)
 import contextlib
 import copy
@@ -1071,6 +1073,7 @@ def run(rep):
                     if f:
                         rep.violation("isolation: " + f[0], {"suite": "isolation", "history": ops})
                         break
+    run_behaviour(rep, thorough)
     rep.coverage["generated_from"] = common.source_hashes(SOURCES)
     rep.coverage["generated"] = info
     rep.coverage["unspecified_observed"] = ("unknown *variant* of a known community platform raises a raw KeyError (the statement only speaks of "
@@ -1079,8 +1082,80 @@ def run(rep):
                 "variant, ordered kwargs drawn per parameter from pools that contain False, 0, 0.0, '', [], {} and None) : corpus + every parameter x "
                 "every pool value alone + random subsets (sizes 0..all) + a malformed stream (wrong types, unknown transports, stray kwargs); "
                 "histories = random interleavings of creating connections through both factories and mutating one of them; "
+                "behaviour scenarios = corpus of twin kinds (same pattern text, different level names / not_contains; both orders; sync and asyncio) + "
+                "random interleavings of new / mutate / use over 2-3 connections with the same prompt looked up on every connection in a random order; "
+                "non-trivial behaviour scenario = >= 2 connections used; "
                 "non-trivial factory case = a falsy-but-supplied argument or a non-core platform; non-trivial history = >= 2 connections and >= 1 mutation; "
                 "distinct = JSON of the case")
+
+
+def run_behaviour(rep, thorough):
+    """behaviour half of the isolation: construct / mutate / USE interleavings over several connections, every connection's
+    answers against the same connection alone, each run in a clean process (harness/c18_iso.py); oracle only"""
+    import time
+    from . import c18_iso as iso
+    rng = rep.rng
+    t0 = time.time()
+    bd = {"scenarios": 0, "corpus": 0, "random": 0, "ops": 0, "op_kinds": {}, "outcomes": {}, "platforms": {}, "max_conns": 0, "clean_process_runs": 0,
+          "twins_differing_in_names_or_not_contains": 0, "shared_state_observer": "ops" if thorough else "ends"}
+    plats = iso.platforms()
+    scen = [(ops, "corpus") for ops in iso.corpus(plats)]
+    for _ in range(400 if thorough else 50):
+        scen.append((iso.gen_scenario(rng, plats), "random"))
+    try:
+        pool = iso.Pool(rep.workdir)
+    except Exception as e:  # noqa
+        rep.broken.append("behaviour isolation: the clean-process worker did not start (%s)" % type(e).__name__)
+        return
+    bfail = []
+    try:
+        for ops, kind in scen:
+            try:
+                fails, full = iso.evaluate(pool, ops, "ops" if thorough else "ends")
+            except RuntimeError as e:
+                rep.broken.append("behaviour isolation: %s" % str(e)[:400])
+                rep.notes.append("scenario: " + json.dumps(ops))
+                break
+            bd["scenarios"] += 1
+            bd[kind] += 1
+            bd["ops"] += len(ops)
+            nc = iso.n_conns(ops)
+            bd["max_conns"] = max(bd["max_conns"], nc)
+            for n, cn, ob in full["events"]:
+                k = ops[n]["op"]
+                bd["op_kinds"][k] = bd["op_kinds"].get(k, 0) + 1
+                oc = k + ":" + (ob[1] if ob[0] == "raised" else ob[0])
+                bd["outcomes"][oc] = bd["outcomes"].get(oc, 0) + 1
+            for o in ops:
+                if o["op"] == "new":
+                    bd["platforms"][o["platform"]] = bd["platforms"].get(o["platform"], 0) + 1
+            finals = full["final"]
+            twins = any(finals[i]["pattern"] == finals[j]["pattern"] and finals[i]["levels"] != finals[j]["levels"]
+                        for i in range(len(finals)) for j in range(i + 1, len(finals)))
+            bd["twins_differing_in_names_or_not_contains"] += 1 if twins else 0
+            used = {o["conn"] for o in ops if o["op"] in ("priv", "prompt", "acquire", "send")}
+            rep.case(("b", json.dumps(ops, sort_keys=True)), nontrivial=nc >= 2 and len(used) >= 2)
+            if bd["scenarios"] == 3:
+                rep.sample({"behaviour_scenario": ops, "events": full["events"]})
+            if fails:
+                bfail.append((ops, fails))
+                if len(bfail) >= 3:
+                    break
+        for ops, fails in bfail[:3]:
+            try:
+                small = iso.shrink(pool, ops, fails)
+                f2 = iso.evaluate(pool, small)[0]
+            except RuntimeError:
+                small, f2 = ops, []
+            msgs = sorted(f2 or fails, key=lambda f: 0 if iso.is_behavioural(f) else 1)
+            rep.violation("behaviour isolation: " + "; ".join(m[:700] for m in msgs[:2]),
+                          {"suite": "behaviour", "scenario": small if f2 else ops, "failures": msgs[:4], "rerun": "./check C18 --replay <this file>"})
+    finally:
+        bd["clean_process_runs"] = pool.requests
+        pool.close()
+    bd["oracle_failures"] = len(bfail)
+    bd["wall_s"] = round(time.time() - t0, 1)
+    rep.coverage["behaviour_isolation"] = bd
 
 
 def corpus():
@@ -1219,6 +1294,25 @@ def replay(path):
             print("  FAIL:", f)
         print("property FAILS on this history" if fails else "property holds on this history")
         return 1 if fails else 0
+    if r.get("suite") == "behaviour" and r.get("scenario"):
+        from . import c18_iso as iso
+        ops = r["scenario"]
+        pool = iso.Pool(workdir)
+        try:
+            fails, full = iso.evaluate(pool, ops, "ops")
+            print("scenario (run in a clean process; every connection also alone in a clean process):")
+            for n, op in enumerate(ops):
+                ev = [ob for k, cn, ob in full["events"] if k == n]
+                print("  op %d %s -> %s" % (n, json.dumps(op, sort_keys=True), json.dumps(ev[0]) if ev else "?"))
+            for i in range(iso.n_conns(ops)):
+                ref = pool.run(iso.projection(ops, i), False)
+                print("  connection %d alone: %s" % (i, json.dumps([ob for _, _, ob in ref["events"]])))
+        finally:
+            pool.close()
+        for f in fails:
+            print("  FAIL:", f[:1500])
+        print("property FAILS on this scenario" if fails else "property holds on this scenario")
+        return 1 if fails else 0
     print("nothing to replay (no concrete input): %s" % r.get("what"))
     return 1
 
@@ -1234,7 +1328,9 @@ MANIFEST = {
             "(AsyncScrapli without transport) never builds — C18_rejects_unknown_and_mixups; for EVERY history of creating connections and "
             "registering sessions / editing levels / appending failure strings on them, the platform definitions keep their value and an "
             "operation on connection i leaves every other connection's tables unchanged (heap frame argument over object identities) — "
-            "C18_isolation_*. Generated obligations (vm_compute over Gen_Factory.v, regenerated from the source on every run): the factory "
+            "C18_isolation_*; hence every answer that is a function of the connection's own tables (the classification of a prompt by privilege "
+            "level names / patterns / not_contains, for any regex matcher) is the same before and after any operations on other connections — "
+            "C18_isolation_answers, C18_isolation_answers_untouched, C18_isolation_classification. Generated obligations (vm_compute over Gen_Factory.v, regenerated from the source on every run): the factory "
             "signatures are exactly platform, host, the 30 forwarded keys (all defaulting to None) and variant, sync = asyncio; every core "
             "driver accepts every forwarded key; the core drivers hold copies (not the module objects) of PRIVS / FAILED_WHEN_CONTAINS; the "
             "initial heap built from the real PRIVS tables is well-formed.",
@@ -1243,7 +1339,20 @@ MANIFEST = {
             "random subsets and a malformed stream, and the model heap vs the real tables after random histories. Independent oracles on the real "
             "code (observed, bounded by the generators): attribute-wise comparison (callables and user objects by identity) of factory-built vs "
             "directly built drivers, literal read-back of every supplied argument, snapshots and identity graph (dict, PrivilegeLevel, not_contains, "
-            "failed_when_contains objects) of definitions and all connections after every op. partial: what BaseDriver does with an argument after "
+            "failed_when_contains objects) of definitions and all connections after every op. ORACLE-ONLY (harness/c18_iso.py, not modelled beyond the "
+            "theorem above): that the real connection's answers ARE a function of its own tables. Scenarios interleave constructing several "
+            "connections of one platform (5 core + the scrapli community network platform, sync and asyncio, sometimes a second platform), mutating "
+            "one (register differently named sessions / sessions agreeing in six characters, add a level under another name with an existing "
+            "pattern, edit pattern / not_contains / failed_when_contains, delete an added level; always followed by update_privilege_levels) and USING "
+            "them (_determine_current_priv on the simulated device's prompts, get_prompt, acquire_priv, send_command over a per-connection "
+            "SimDevice with equal host names) in both orders; the scenario and, per connection, its projection (that connection alone) each run in "
+            "a clean process (fork of a worker that imported scrapli but never built a connection); every answer (levels / exception class / "
+            "believed level / device mode / lines typed) and the final state must be equal. Beside it a generic observer: contents of every "
+            "container or scrapli-class instance in vars() of the driver / channel / transport classes (MRO), of every class in a scrapli module "
+            "and in the globals of every scrapli module, before / after the scenario (thorough: around every op), and mutable containers reachable "
+            "from two connections; interpreter dunder memos (__slotnames__) and functools.lru_cache objects are not containers and are judged by "
+            "behaviour only. Kept out: editing a level WITHOUT update_privilege_levels (stale per-connection lru entries are evicted by other "
+            "connections' cache_clear — outside the documented use). partial: what BaseDriver does with an argument after "
             "the constructor received it (ssh file resolution, key file resolution, host strip) is only compared factory-vs-direct, not modelled; "
             "positional calls are not covered; an unknown *variant* of a known community platform raises a raw KeyError — outside the statement, "
             "observed and modelled, not judged. deepcopy is modelled for the table shape (dict -> PrivilegeLevel -> not_contains list), not as "
